@@ -44,7 +44,7 @@ var c17Name = &dtpb.HumanName{Family: &dtpb.String{Value: "Env"}}
 var c17Coll = system.Collection{system.Integer(1), system.String("x"), c17Name}
 
 // evaluate-option kinds
-var c17EvalKinds = []string{"sys", "elem", "coll", "dup", "predef-context", "predef-ucum", "unsupported", "nested-unsupported", "nested-collection", "nil", "time"}
+var c17EvalKinds = []string{"sys", "elem", "coll", "dup", "predef-context", "predef-ucum", "unsupported", "nested-unsupported", "nested-collection", "unsupported-first", "nil", "time"}
 
 func c17EvalOpt(kind string) fhirpath.EvaluateOption {
 	switch kind {
@@ -64,6 +64,9 @@ func c17EvalOpt(kind string) fhirpath.EvaluateOption {
 		return evalopts.EnvVariable("u", 42)
 	case "nested-unsupported":
 		return evalopts.EnvVariable("n", system.Collection{system.Integer(1), system.Collection{system.String("ok"), "raw go string"}})
+	case "unsupported-first":
+		// the offending items are not the last ones of the collection
+		return evalopts.EnvVariable("uf", system.Collection{"raw go string", nil, 42, system.Integer(1), system.String("ok")})
 	case "nested-collection":
 		// collections are flat: a collection holding a collection (of valid items) is not "a collection of those"
 		return evalopts.EnvVariable("nc", system.Collection{system.Integer(1), system.Collection{system.String("ok")}})
@@ -123,7 +126,7 @@ func c17EvalList(env *core.Env, kinds []string) {
 			}
 		case "predef-context", "predef-ucum":
 			expExisting = true
-		case "unsupported", "nested-unsupported", "nested-collection", "nil":
+		case "unsupported", "nested-unsupported", "nested-collection", "unsupported-first", "nil":
 			expUnsupported = true
 		}
 	}
